@@ -920,7 +920,10 @@ pub fn run_spec(out: &mut Out, run: u64, spec: &Value) {
     let params = &spec["params"];
     let n = spec["n"].as_u64().unwrap() as u32;
     let seed = spec["seed"].as_u64().unwrap();
-    let parallel = spec["eval"].as_str() == Some("par");
+    // "seq" | "par" (global pool) | "par<k>" (a pool of k worker threads)
+    let ev = spec["eval"].as_str().unwrap_or("seq");
+    let parallel = ev.starts_with("par");
+    let threads: usize = ev.strip_prefix("par").and_then(|k| k.parse().ok()).unwrap_or(0);
     let prob = &spec["prob"];
     let mut header = spec.clone();
     macro_rules! go {
@@ -951,7 +954,7 @@ pub fn run_spec(out: &mut Out, run: u64, spec: &Value) {
                 }
                 Ok(Ok(config)) => {
                     header["ctor"] = json!("ok");
-                    let o = observe_with(&config, &problem, seed, extra, &RunOpts { parallel, eval_id_a: name.ends_with("@A"), eval_both: name.ends_with("@AG"),
+                    let o = observe_with(&config, &problem, seed, extra, &RunOpts { parallel, threads, eval_id_a: name.ends_with("@A"), eval_both: name.ends_with("@AG"),
                                                                                    log_lt: if name.ends_with("|log4") { 4 } else { 0 }, ..Default::default() });
                     header["tree"] = o.tree.clone();
                     let values = problem.stats().values.lock().unwrap().clone();
